@@ -136,7 +136,7 @@ func (r *Decoder) scan(ectx evaluationContext, fn scanFunc) (readerStack, error)
 					if errors.Is(err, io.EOF) {
 						r.commit(uncommitted.AsDecodedRunes())
 
-						return r.terminate()
+						return fn(r, ectx, r1, err)
 					}
 
 					return readerStack{}, err
